@@ -32,6 +32,7 @@ import (
 	"go/printer"
 	"go/token"
 	"go/types"
+	"golang.org/x/tools/go/ast/astutil"
 	"os"
 	"path/filepath"
 	"sort"
@@ -1032,6 +1033,24 @@ func (n *normaliser) run() {
 		f.fd.Body.List = append(pre, f.fd.Body.List...)
 		n.modified[f.di.decl] = true
 		n.rep.Renamed = append(n.rep.Renamed, notes...)
+	}
+	// ---- results packed into a small struct -------------------------------------------------------------------
+	// A known function whose results (A, B, error) became (T, error) with T a new unexported struct{A; B}: the
+	// results are unpacked again — composite literals at the returns become separate values, `res, err := f()` at the
+	// call sites becomes `res_a, res_b, err := f()` and `res.a` becomes `res_a`. Anything else (T used as a whole,
+	// assignment to existing variables, a zero value that cannot be written down) leaves the function as it is.
+	for _, f := range fns {
+		key := f.key
+		if nn, ok := renames[f.obj]; ok {
+			key = prefix(f.key) + "|" + nn
+		}
+		invSig, known := n.inv.Funcs[key]
+		if !known || f.fd.Body == nil || f.fd.Type.Results == nil || sigString(f.obj) == invSig {
+			continue
+		}
+		if n.unpackResultStruct(f.obj, f.fd, f.di, invSig) {
+			n.rep.Renamed = append(n.rep.Renamed, fmt.Sprintf("results of %s: the small result struct is unpacked into separate results again", short(f.obj.FullName())))
+		}
 	}
 	sort.Strings(n.rep.Renamed)
 
@@ -2393,6 +2412,371 @@ func (n *normaliser) methodise(obj *types.Func, fd *ast.FuncDecl, di declInfo, n
 		s.call.Fun = &ast.SelectorExpr{X: recv, Sel: ident(name)}
 		s.call.Args = s.call.Args[1:]
 		n.modified[s.decl] = true
+	}
+	return true
+}
+
+// unpackResultStruct undoes "return a small struct instead of several values" for fn (see run). It reports
+// whether it rewrote the declaration and all call sites.
+func (n *normaliser) unpackResultStruct(obj *types.Func, fd *ast.FuncDecl, di declInfo, invSig string) bool {
+	pkg := di.pkg
+	sig := obj.Type().(*types.Signature)
+	res := sig.Results()
+	pos := -1
+	var st *types.Struct
+	var named *types.Named
+	for i := 0; i < res.Len(); i++ {
+		nt, ok := res.At(i).Type().(*types.Named)
+		if !ok {
+			continue
+		}
+		s, ok := nt.Underlying().(*types.Struct)
+		if !ok || nt.Obj().Exported() || nt.Obj().Pkg() != pkg.Types {
+			continue
+		}
+		if _, knownT := n.inv.Vars[relPkg(pkg.PkgPath)+"|"+nt.Obj().Name()]; knownT {
+			continue
+		}
+		if pos >= 0 {
+			return false
+		}
+		pos, st, named = i, s, nt
+	}
+	if pos < 0 || st.NumFields() == 0 || st.NumFields() > 6 {
+		return false
+	}
+	anon := func(t *types.Tuple) []*types.Var {
+		var vs []*types.Var
+		for i := 0; i < t.Len(); i++ {
+			vs = append(vs, types.NewVar(token.NoPos, nil, "", t.At(i).Type()))
+		}
+		return vs
+	}
+	var flat []*types.Var
+	for i := 0; i < res.Len(); i++ {
+		if i == pos {
+			for j := 0; j < st.NumFields(); j++ {
+				flat = append(flat, types.NewVar(token.NoPos, nil, "", st.Field(j).Type()))
+			}
+		} else {
+			flat = append(flat, types.NewVar(token.NoPos, nil, "", res.At(i).Type()))
+		}
+	}
+	flatSig := types.NewSignatureType(nil, nil, nil, types.NewTuple(anon(sig.Params())...), types.NewTuple(flat...), sig.Variadic())
+	if types.TypeString(flatSig, fullQual) != invSig {
+		return false
+	}
+	// the struct's declaration: field names and type expressions
+	var fieldNames []string
+	var fieldTypes []ast.Expr
+	for _, file := range pkg.Syntax {
+		for _, d := range file.Decls {
+			gd, ok := d.(*ast.GenDecl)
+			if !ok {
+				continue
+			}
+			for _, sp := range gd.Specs {
+				ts, ok := sp.(*ast.TypeSpec)
+				if !ok || pkg.TypesInfo.Defs[ts.Name] != types.Object(named.Obj()) {
+					continue
+				}
+				stx, ok := ts.Type.(*ast.StructType)
+				if !ok {
+					return false
+				}
+				for _, fl := range stx.Fields.List {
+					if len(fl.Names) == 0 {
+						return false
+					}
+					for _, nm := range fl.Names {
+						fieldNames = append(fieldNames, nm.Name)
+						fieldTypes = append(fieldTypes, fl.Type)
+					}
+				}
+			}
+		}
+	}
+	if len(fieldNames) != st.NumFields() {
+		return false
+	}
+	// result list: unnamed results only
+	var resFields []*ast.Field
+	for _, fl := range fd.Type.Results.List {
+		if len(fl.Names) > 0 {
+			return false
+		}
+		resFields = append(resFields, fl)
+	}
+	if len(resFields) != res.Len() {
+		return false
+	}
+	zero := func(t types.Type) ast.Expr {
+		switch u := t.Underlying().(type) {
+		case *types.Basic:
+			switch {
+			case u.Info()&types.IsBoolean != 0:
+				return ident("false")
+			case u.Info()&types.IsString != 0:
+				return &ast.BasicLit{Kind: token.STRING, Value: `""`}
+			case u.Info()&types.IsNumeric != 0:
+				return &ast.BasicLit{Kind: token.INT, Value: "0"}
+			}
+		case *types.Pointer, *types.Slice, *types.Map, *types.Chan, *types.Signature, *types.Interface:
+			return ident("nil")
+		}
+		return nil
+	}
+	// returns of the function itself (not of nested function literals)
+	type retEdit struct {
+		ret   *ast.ReturnStmt
+		exprs []ast.Expr
+	}
+	var retEdits []retEdit
+	okRet := true
+	var walk func(x ast.Node) bool
+	walk = func(x ast.Node) bool {
+		switch y := x.(type) {
+		case *ast.FuncLit:
+			return false
+		case *ast.ReturnStmt:
+			if len(y.Results) != res.Len() {
+				okRet = false
+				return false
+			}
+			cl, ok := y.Results[pos].(*ast.CompositeLit)
+			if !ok || !types.Identical(pkg.TypesInfo.TypeOf(cl), named) {
+				okRet = false
+				return false
+			}
+			vals := make([]ast.Expr, len(fieldNames))
+			for i, e := range cl.Elts {
+				if kv, ok := e.(*ast.KeyValueExpr); ok {
+					k, ok := kv.Key.(*ast.Ident)
+					if !ok {
+						okRet = false
+						return false
+					}
+					for j, fnm := range fieldNames {
+						if fnm == k.Name {
+							vals[j] = kv.Value
+						}
+					}
+				} else if i < len(vals) {
+					vals[i] = e
+				}
+			}
+			for j := range vals {
+				if vals[j] == nil {
+					vals[j] = zero(st.Field(j).Type())
+					if vals[j] == nil {
+						okRet = false
+						return false
+					}
+				}
+			}
+			var out []ast.Expr
+			out = append(out, y.Results[:pos]...)
+			out = append(out, vals...)
+			out = append(out, y.Results[pos+1:]...)
+			retEdits = append(retEdits, retEdit{y, out})
+			return false
+		}
+		return true
+	}
+	ast.Inspect(fd.Body, walk)
+	if !okRet || len(retEdits) == 0 {
+		return false
+	}
+	// call sites
+	type siteEdit struct {
+		assign  *ast.AssignStmt
+		decl    ast.Decl
+		base    string
+		resObj  types.Object
+		sels    map[*ast.SelectorExpr]string
+		used    map[string]bool
+		varSpec *ast.ValueSpec
+	}
+	var sites []siteEdit
+	for _, p2 := range n.p.Pkgs {
+		if !productPkg(p2.PkgPath) {
+			continue
+		}
+		for _, file := range p2.Syntax {
+			for _, d := range file.Decls {
+				var uses []*ast.Ident
+				ast.Inspect(d, func(x ast.Node) bool {
+					if id, ok := x.(*ast.Ident); ok && p2.TypesInfo.Uses[id] == types.Object(obj) {
+						uses = append(uses, id)
+					}
+					return true
+				})
+				if len(uses) == 0 {
+					continue
+				}
+				if p2 != pkg {
+					return false
+				}
+				found := 0
+				bad := false
+				ast.Inspect(d, func(x ast.Node) bool {
+					as, ok := x.(*ast.AssignStmt)
+					if !ok || len(as.Rhs) != 1 {
+						return true
+					}
+					call, ok := as.Rhs[0].(*ast.CallExpr)
+					if !ok {
+						return true
+					}
+					var fid *ast.Ident
+					switch fun := call.Fun.(type) {
+					case *ast.Ident:
+						fid = fun
+					case *ast.SelectorExpr:
+						fid = fun.Sel
+					}
+					if fid == nil || pkg.TypesInfo.Uses[fid] != types.Object(obj) {
+						return true
+					}
+					found++
+					if len(as.Lhs) != res.Len() {
+						bad = true
+						return true
+					}
+					lid, ok := as.Lhs[pos].(*ast.Ident)
+					if !ok {
+						bad = true
+						return true
+					}
+					se := siteEdit{assign: as, decl: d, base: lid.Name, sels: map[*ast.SelectorExpr]string{}, used: map[string]bool{}}
+					if lid.Name != "_" {
+						if as.Tok == token.DEFINE {
+							se.resObj = pkg.TypesInfo.Defs[lid]
+						} else {
+							// `var res T` declared for this one assignment
+							se.resObj = pkg.TypesInfo.Uses[lid]
+							ast.Inspect(d, func(y ast.Node) bool {
+								if vs, ok := y.(*ast.ValueSpec); ok && len(vs.Names) == 1 && len(vs.Values) == 0 && pkg.TypesInfo.Defs[vs.Names[0]] == se.resObj && se.resObj != nil {
+									se.varSpec = vs
+								}
+								return true
+							})
+							if se.varSpec == nil {
+								se.resObj = nil
+							}
+						}
+						if se.resObj == nil {
+							bad = true // re-used variable
+							return true
+						}
+						nUses := 0
+						ast.Inspect(d, func(y ast.Node) bool {
+							if id, ok := y.(*ast.Ident); ok && pkg.TypesInfo.Uses[id] == se.resObj {
+								nUses++
+							}
+							if sel, ok := y.(*ast.SelectorExpr); ok {
+								if id, ok := sel.X.(*ast.Ident); ok && pkg.TypesInfo.Uses[id] == se.resObj {
+									for _, fnm := range fieldNames {
+										if fnm == sel.Sel.Name {
+											se.sels[sel] = fnm
+											se.used[fnm] = true
+										}
+									}
+								}
+							}
+							return true
+						})
+						if as.Tok != token.DEFINE {
+							nUses-- // the assignment's own left-hand side
+						}
+						if nUses != len(se.sels) {
+							bad = true // the struct is used as a whole somewhere
+						}
+					}
+					sites = append(sites, se)
+					return true
+				})
+				if bad || found != len(uses) {
+					return false
+				}
+			}
+		}
+	}
+	// ---- apply ---------------------------------------------------------------------------------------------
+	var newRes []*ast.Field
+	for i, fl := range resFields {
+		if i == pos {
+			for _, t := range fieldTypes {
+				newRes = append(newRes, &ast.Field{Type: t})
+			}
+		} else {
+			newRes = append(newRes, fl)
+		}
+	}
+	fd.Type.Results.List = newRes
+	for _, re := range retEdits {
+		re.ret.Results = re.exprs
+	}
+	n.modified[di.decl] = true
+	for _, se := range sites {
+		var lhs []ast.Expr
+		lhs = append(lhs, se.assign.Lhs[:pos]...)
+		for _, fnm := range fieldNames {
+			if se.base == "_" || !se.used[fnm] {
+				lhs = append(lhs, ident("_"))
+			} else {
+				lhs = append(lhs, ident(se.base+"_"+fnm))
+			}
+		}
+		lhs = append(lhs, se.assign.Lhs[pos+1:]...)
+		se.assign.Lhs = lhs
+		if se.varSpec != nil {
+			// var res T  ->  var res_a A (the first used field; the others are declared by further specs below)
+			var names []*ast.Ident
+			var typ ast.Expr
+			firstDone := false
+			var extra []ast.Spec
+			for j, fnm := range fieldNames {
+				if !se.used[fnm] {
+					continue
+				}
+				if !firstDone {
+					names, typ, firstDone = []*ast.Ident{ident(se.base + "_" + fnm)}, fieldTypes[j], true
+					continue
+				}
+				extra = append(extra, &ast.ValueSpec{Names: []*ast.Ident{ident(se.base + "_" + fnm)}, Type: fieldTypes[j]})
+			}
+			if firstDone {
+				se.varSpec.Names, se.varSpec.Type = names, typ
+				ast.Inspect(se.decl, func(y ast.Node) bool {
+					if gd, ok := y.(*ast.GenDecl); ok {
+						for i, sp := range gd.Specs {
+							if sp == ast.Spec(se.varSpec) && len(extra) > 0 {
+								gd.Specs = append(append(append([]ast.Spec{}, gd.Specs[:i+1]...), extra...), gd.Specs[i+1:]...)
+								if !gd.Lparen.IsValid() {
+									gd.Lparen, gd.Rparen = 1, 1
+								}
+								return false
+							}
+						}
+					}
+					return true
+				})
+			} else {
+				se.varSpec.Names = []*ast.Ident{ident("_")}
+			}
+		}
+		sels, base := se.sels, se.base
+		astutil.Apply(se.decl, func(c *astutil.Cursor) bool {
+			if sel, ok := c.Node().(*ast.SelectorExpr); ok {
+				if fnm, hit := sels[sel]; hit {
+					c.Replace(ident(base + "_" + fnm))
+					return false
+				}
+			}
+			return true
+		}, nil)
+		n.modified[se.decl] = true
 	}
 	return true
 }
